@@ -159,6 +159,13 @@ fn events_req(who: &str, inst: &rrun::Inst, pr: &rrun::Params, cs: &[CompressedR
 
 /// the reference prover: returns proof bytes
 pub fn reference_prove(drv: &mut Driver, inst: &rrun::Inst, rng: &mut (impl RngCore + rand_core::CryptoRng)) -> Option<Vec<u8>> {
+    reference_prove_with(drv, inst, None, rng)
+}
+
+/// the reference prover, optionally *lying*: the transcript absorbs the statement's promises, the arithmetic (bit
+/// decomposition, offsets) is done with `arith_promises` instead. With other arithmetic promises than the statement's
+/// the result is a proof of the wrong relation, which every verifier must refuse.
+pub fn reference_prove_with(drv: &mut Driver, inst: &rrun::Inst, arith_promises: Option<&[u64]>, rng: &mut (impl RngCore + rand_core::CryptoRng)) -> Option<Vec<u8>> {
     let nn = inst.n * inst.m;
     let kappa = nn.ilog2() as usize;
     let t = inst.t;
@@ -200,7 +207,7 @@ pub fn reference_prove(drv: &mut Driver, inst: &rrun::Inst, rng: &mut (impl RngC
             t,
             names.wire(nn, t),
             nlist(&inst.values),
-            nlist(&inst.promises.iter().map(|p| p.unwrap_or(0)).collect::<Vec<_>>()),
+            nlist(&arith_promises.map(|p| p.to_vec()).unwrap_or_else(|| inst.promises.iter().map(|p| p.unwrap_or(0)).collect::<Vec<_>>())),
             hrows(&inst.blindings),
             hlist(&alpha),
             hrows(&dl),
